@@ -253,7 +253,9 @@ impl<
 
         // First phase: we build an inventory for each one out of ones_per_inventory.
         for (i, word) in bits.as_ref().iter().copied().enumerate() {
-            let ones_in_word = word.count_ones() as usize;
+            // Backend bits beyond the length of the bit vector (stale
+            // bits of the last word, spare words) are not ones of the vector
+            let ones_in_word = (word.count_ones() as usize).min(num_ones - past_ones);
 
             while past_ones + ones_in_word > next_quantum {
                 let in_word_index = word.select_in_word(next_quantum - past_ones);
@@ -370,7 +372,8 @@ impl<
             let mut word = (bits.as_ref()[word_idx] >> bit_idx) << bit_idx;
 
             'outer: loop {
-                let ones_in_word = word.count_ones() as usize;
+                // See the first phase for the reason of the bound on the count
+                let ones_in_word = (word.count_ones() as usize).min(num_ones - past_ones);
 
                 // If the quantum is in this word, write it in the subinventory.
                 // Note that this can happen multiple times in the same word if
